@@ -443,6 +443,12 @@ def run(ctx):
                 var = leaf[3][0][2].split("::")[-1]
             if len(hits) == 1 and var:
                 table.setdefault(hits[0], set()).add(var)
+        if not table:
+            from ..table import const_name_search
+
+            searched = const_name_search(prog, sb, "repository::Category")
+            if searched is not None:
+                table = {k_: {v_} for k_, v_ in searched.items()}
         for dir_, (name, _val) in sorted(CATEGORIES.items()):
             ctx.ob("CATEGORY", f"name|{dir_}", table.get(dir_) == {name}, f"string_to_category({dir_!r}) = {sorted(table.get(dir_, []))}; must be Category::{name}", sb.file, sb.line, sample=(dir_ == "chara"))
         extra = sorted(set(table) - set(CATEGORIES))
